@@ -3,6 +3,7 @@ package main
 import (
 	"fmt"
 	"regexp"
+	"sort"
 	"strings"
 
 	"verif/internal/sup"
@@ -41,7 +42,8 @@ func runAdapt(c *sup.Child, b sup.Batch) {
 		shape := rng.Intn(7)
 		target := rng.Intn(n)
 		useSetAll := rng.Intn(2) == 0
-		desc := map[string]any{"kind": "adapt", "variant": variant, "probe_env": quoteMap(probe), "rounds": rounds, "shape": shape, "target": names[target]}
+		exhaust := rng.Intn(3) == 0
+		desc := map[string]any{"kind": "adapt", "every_first_letter": exhaust, "variant": variant, "probe_env": quoteMap(probe), "rounds": rounds, "shape": shape, "target": names[target]}
 		c.Case(idx, desc, func(r *sup.CaseResult) {
 			var seen []string
 			for k := 0; k < rounds; k++ {
@@ -64,11 +66,40 @@ func runAdapt(c *sup.Child, b sup.Batch) {
 			}
 			r.AddObs("adapt_terminators_distinct_in_case", int64(len(distinct)))
 			cands := append(append([]string{}, seen...), "EOF", "EOFABC")
+			for _, t := range seen {
+				// a delimiter may carry a prefix chosen for the values at hand: its stem is a candidate too
+				if i := strings.Index(t, "EOF"); i > 0 {
+					cands = append(cands, t[i:])
+				}
+			}
+			if exhaust {
+				// … and every one-letter prefix of every stem seen so far
+				stems := map[string]bool{}
+				for _, t := range cands {
+					if i := strings.Index(t, "EOF"); i >= 0 {
+						stems[t[i:]] = true
+					}
+				}
+				for st := range stems {
+					for _, ch := range "abcdefghijklmnopqrstuvwxyzABCDEFGHIJKLMNOPQRSTUVWXYZ" {
+						cands = append(cands, string(ch)+st)
+					}
+				}
+				sort.Strings(cands)
+			}
 			m := map[string]string{}
 			for k, v := range probe {
 				m[k] = v
 			}
 			var sb strings.Builder
+			if exhaust {
+				// one line for every letter: a delimiter chosen by "a first letter no value line starts
+				// with" has no letter left and must still not be guessable from earlier scripts
+				for _, ch := range "abcdefghijklmnopqrstuvwxyzABCDEFGHIJKLMNOPQRSTUVWXYZ" {
+					sb.WriteString(string(ch) + "x\n")
+				}
+				r.AddObs("adapt_values_using_every_first_letter", 1)
+			}
 			for _, t := range cands {
 				switch shape {
 				case 0:
